@@ -187,6 +187,7 @@ def origin_helpers(mod):
     for canon in pb.classes:
         lines.append('    m_.def("_verif_origin", [](const %s& o){ return o.vt_origin; });' % canon.replace('string', 'std::string') if False else
                      '    m_.def("_verif_origin", [](const %s& o){ return o.vt_origin; });' % _cpp_of_canon(canon))
+        lines.append('    m_.def("_verif_tag", [](const %s& o){ return o.vt_tag; });' % _cpp_of_canon(canon))
     return '\n'.join(lines)
 
 
